@@ -649,6 +649,7 @@ class World:
         e = spec["env"]
         return ((allow_auto_escape or not e.get("auto_escape")) and not e.get("undefined") and not e.get("trim")
                 and e.get("suppress_blank_control_flow_blocks") is None and not e.get("loop_iteration_limit")
+                and not e.get("shorthand_indexes")
                 and not e.get("output_stream_limit") and not e.get("local_namespace_limit")
                 and not e.get("context_depth_limit") and not spec.get("globals")
                 and not any(ev[0] == "config" for ev in self.env_events[ei]))
@@ -1046,6 +1047,7 @@ def gen_plan(seed: int, tier: str) -> dict:
         only_escape = (not plain) and rng.random() < 0.25
         envc = ({"shopify": True} if shopify else {}) if plain else ({"auto_escape": True} if only_escape else {
             "shopify": shopify,
+            "shorthand_indexes": rng.choice([None, None, True]),
             "auto_escape": rng.random() < 0.3,
             "undefined": rng.choice([None, None, "strict", "falsy"]),
             "trim": rng.choice([None, None, "-", "~"]),
